@@ -90,8 +90,13 @@ func c05Undo(c *core.Ctx) {
 	if c.Index%2 == 0 {
 		prof.RememberMode = 2 // everything remembered: the partial forest applies blocks without being re-shown the proofs
 	}
-	fs := genForestScenario(c.Rng, tag, cfgs, fGenOpts{Profile: prof, Rounds: 1 + c.Rng.Intn(3), Undo: true, PartialOps: c.Index%3 != 0, ForceEmptyRootOverwrite: c.Index%2 == 0})
+	fs := genForestScenario(c.Rng, tag, cfgs, fGenOpts{Profile: prof, Rounds: 1 + c.Rng.Intn(3), Undo: true, PartialOps: c.Index%3 != 0, ForceEmptyRootOverwrite: c.Index%2 == 0, Reload: c.Index%4 == 1, JunkProofs: c.Index%4 == 3})
 	fs.FromRootsAt = -1
+	if c.Index%4 == 1 {
+		// the re-encoded blocks are applied to instances that were just restored from their own
+		// bytes (added after seeded change C05h)
+		fs.Ops = append(fs.Ops, fOp{Kind: "reload"})
+	}
 	// the end state of the scenario, on the model alone
 	m := &rm.Model{}
 	var stack []*rm.Model
